@@ -419,11 +419,10 @@ impl<T> DataReaderEntity<T> {
             }
         }
 
+        // The owner gives up the instance when it unregisters it; a dispose alone does not release the ownership
         if matches!(
             sample.kind,
-            ChangeKind::NotAliveDisposed
-                | ChangeKind::NotAliveUnregistered
-                | ChangeKind::NotAliveDisposedUnregistered
+            ChangeKind::NotAliveUnregistered | ChangeKind::NotAliveDisposedUnregistered
         ) {
             if let Some(i) = self
                 .instance_ownership
